@@ -340,7 +340,14 @@ class Outcome:
                         g = json.loads(rec)
                         i = ex % 1000
                         if grouped == "pair":
-                            rec = json.dumps(dict(k="p", tree=g.get("tree"), memtree=g.get("memtree"), own=g.get("own"), steps=[g["steps"][i - 1]] if 0 < i <= len(g["steps"]) else []))
+                            tree, memtree = g.get("tree"), g.get("memtree")
+                            if g.get("k") == "ph":            # chain of paired steps: the pre-states of step i are the last changed post-states before it
+                                for st in g["steps"][:max(i - 1, 0)]:
+                                    if st["std"]["same"] == "f":
+                                        tree = st["std"]["post"]
+                                    if st["mem"]["same"] == "f":
+                                        memtree = st["mem"]["post"]
+                            rec = json.dumps(dict(k="p", tree=tree, memtree=memtree, own=g.get("own"), steps=[g["steps"][i - 1]] if 0 < i <= len(g["steps"]) else []))
                         elif g.get("k") == "h":
                             cur = g["init"]
                             for st in g["steps"][:max(i - 1, 0)]:
